@@ -110,7 +110,9 @@ RULE = (
     "letter cases) instead of expect100=True; ~10% answer one or two exchanges with a response that announces "
     "Content-Length N (StreamResponse.content_length, or a Content-Length field beside an async-generator / file-like "
     "Payload body) and whose producer yields N bytes (N reached at the end of a write, or crossed inside one) plus one to "
-    "three further pieces; batch "
+    "three further pieces; ~8% (HTTP/1.1) send one or two bodies (bytes/bytearray/str/BytesIO/async generator/raw file-like) "
+    "with a 'Transfer-Encoding: chunked' field line spelled by the caller in headers= (three letter cases), chunked= and "
+    "compress= at their defaults; batch "
     "'reset' adds one reset/EOF at a byte offset or loop step. Non-trivial: >=2 exchanges completed and at least one "
     "connection was reused or closed by a decision of either end. Distinct = interleaving signature."
 )
@@ -441,6 +443,8 @@ def gen(rng, tier, index):
         add_expect_spelled(rng, scn)
     if rng.random() < P_OVERRUN:
         add_overrun(rng, scn)
+    if rng.random() < P_CALLER_TE:
+        add_caller_te(rng, scn)
     return scn
 
 
@@ -786,6 +790,45 @@ def producer_pieces(body, data):
     return pieces + extra
 
 
+# ---- extension 8: the caller spells the framing field itself (headers={"Transfer-Encoding": "chunked"}), chunked= at default
+P_CALLER_TE = 0.12   # applies to HTTP/1.1 sessions only (70 % of them): ~8 % of all scenarios
+CALLER_TE_NAMES = ["Transfer-Encoding", "Transfer-Encoding", "transfer-encoding", "TRANSFER-ENCODING"]
+CALLER_TE_KINDS = ["bytes", "bytes", "bytearray", "str", "bio"]  # bodies of known size: with an unsized body aiohttp
+# refuses the combination (ValueError before any byte is written) - a request the API does not express
+
+
+def add_caller_te(rng, scn):
+    """One or two exchanges of an HTTP/1.1 session carry a body (bytes / str / file-like / async generator) and a
+    'Transfer-Encoding: chunked' field line given through headers= (name in one of three letter cases) while chunked=
+    and compress= are left at their defaults.  The head the handler sees must carry that field once, no Content-Length
+    beside it (RFC 9112 6.2), and the bytes behind the head must be the body in chunked framing."""
+    if scn["version"] != "1.1":
+        return
+    for i in _ext_targets(rng, scn):
+        rq = scn["exchanges"][i]["req"]
+        if early_mode(rq) is not None or asks_continue(rq):
+            continue
+        if rq["method"].upper() == "HEAD":
+            rq["method"] = "POST"
+        b = rq["body"]
+        if b["kind"] not in ("bytes", "bytearray", "str", "bio") or b.get("size", 0) == 0:
+            kind = rng.choice(CALLER_TE_KINDS)
+            b = {"kind": kind, "k": rng.randrange(251), "size": rng.choice([1, 3, 17, 300, 2047, 2049])}
+            if kind == "agen":
+                b["pieces"] = gen_pieces(rng, b["size"])
+            rq["body"] = b
+            rq["json_api"] = False
+        rq["chunked"] = None
+        rq["compress"] = None
+        hs = rq["headers"] = [h for h in rq["headers"] if h[0].lower() not in ("transfer-encoding", "content-length")]
+        hs.insert(rng.randrange(len(hs) + 1), [rng.choice(CALLER_TE_NAMES), "chunked"])
+
+
+def caller_te(rq):
+    """did the caller write a Transfer-Encoding field line in headers= (extension 8)?"""
+    return any(n.lower() == "transfer-encoding" for n, _ in rq["headers"])
+
+
 def chunked_complete(data):
     """does this byte string hold a complete chunked body (RFC 9112 7.1: chunks, last-chunk, trailer section, CRLF)?"""
     pos, n = 0, len(data)
@@ -953,6 +996,16 @@ def shrink(scn):
                 for simpler in (["Expect", "100-continue"], ["Expect", h[1]], [h[0], "100-continue"], ["Expect", "100-Continue"]):
                     if h != simpler:
                         yield _with_ex(scn, i, dict(ex, req=dict(rq, headers=rq["headers"][:j] + [simpler] + rq["headers"][j + 1:])))
+        for j, h in enumerate(rq["headers"]):
+            if h[0].lower() == "transfer-encoding":
+                rest = rq["headers"][:j] + rq["headers"][j + 1:]
+                # the plain API for the same request (chunked=True), the request without the field, the plainest spelling
+                yield _with_ex(scn, i, dict(ex, req=dict(rq, headers=rest, chunked=True)))
+                yield _with_ex(scn, i, dict(ex, req=dict(rq, headers=rest)))
+                if h[0] != "Transfer-Encoding":
+                    yield _with_ex(scn, i, dict(ex, req=dict(rq, headers=rq["headers"][:j] + [["Transfer-Encoding", h[1]]] + rq["headers"][j + 1:])))
+                if rq["body"]["kind"] not in ("bytes", "none"):
+                    yield _with_ex(scn, i, dict(ex, req=dict(rq, body={"kind": "bytes", "k": rq["body"]["k"], "size": rq["body"].get("size", 3)})))
         if len(rq["headers"]) > 1:
             for j in range(len(rq["headers"])):
                 yield _with_ex(scn, i, dict(ex, req=dict(rq, headers=rq["headers"][:j] + rq["headers"][j + 1:])))
@@ -1951,6 +2004,26 @@ def run(scn, ch, log=False):
                         f"exchange {sg['ex']} ({rq['method']} body={rq['body']['kind']} chunked={rq['chunked']!r}): request head declares "
                         f"Content-Length {hd['content-length']!r} without Transfer-Encoding but the client wrote {nbody} body "
                         f"bytes: {_short(bytes(sg['body'][:60]))}")
+            te_cls = "te_spelled_by_caller:" + ("sized_body" if rq["body"]["kind"] in ("bytes", "bytearray", "str", "bio") else rq["body"]["kind"]) \
+                if caller_te(rq) else ck
+            if "transfer-encoding" in hd and "content-length" in hd:
+                # RFC 9112 6.2: a sender MUST NOT send Content-Length in a message that contains Transfer-Encoding (the
+                # receiver lets Transfer-Encoding win, 6.3, or rejects the message)
+                poisoned(sg["ex"])
+                violate("request_framing", f"content_length_beside_transfer_encoding:{te_cls}",
+                        f"exchange {sg['ex']} ({rq['method']} body={rq['body']['kind']} chunked={rq['chunked']!r} compress={rq['compress']!r}; "
+                        f"caller's headers= {[h for h in rq['headers'] if h[0].lower() in ('transfer-encoding', 'content-length')]}): the "
+                        f"request head carries Transfer-Encoding {hd['transfer-encoding']!r} AND Content-Length {hd['content-length']!r}; "
+                        f"{nbody} bytes follow the head: {_short(bytes(sg['body'][:60]))}"
+                        + ("" if chunked_complete(bytes(sg["body"])) else " - not chunked framing, which the Transfer-Encoding field announces")
+                        + f"; the caller got {results[sg['ex']]['status'] if sg['ex'] < len(results) else None}")
+            elif "transfer-encoding" in hd and done and not any_fault_early() and last_seg[sg["ex"]] is sg and not refused_sg \
+                    and not early_sg and not chunked_complete(bytes(sg["body"])):
+                poisoned(sg["ex"])
+                violate("request_framing", f"transfer_encoding_chunked_vs_bytes_written:{te_cls}",
+                        f"exchange {sg['ex']} ({rq['method']} body={rq['body']['kind']} chunked={rq['chunked']!r}): request head announces "
+                        f"Transfer-Encoding {hd['transfer-encoding']!r} but the {nbody} bytes the client wrote behind it are not a "
+                        f"complete chunked body: {_short(bytes(sg['body'][:60]))}")
             if rq["method"].upper() == "HEAD" and (hd.get("content-length", ["0"]) != ["0"] or "transfer-encoding" in hd):
                 # a HEAD request that carries body framing: the server must consume the body like any other
                 # (C02-F5 / C01-F1, repaired in the repository; the connection is no longer treated as poisoned)
@@ -2368,7 +2441,8 @@ def run(scn, ch, log=False):
                             f"connection {n}: server output is not a sequence of well-formed responses: {rest}; "
                             f"tail {bytes(s_out.get(n, b''))[-80:]!r}")
             elif sum(1 for r in finals if r["complete"]) > len(c["handled"]) and not server_errors \
-                    and all(r["ex"] is not None and r["ex"] < poison["from"] for r in c["handled"]):
+                    and all(r["ex"] is not None and r["ex"] < poison["from"] for r in c["handled"]) \
+                    and not any(e_ >= poison["from"] for _, e_ in writes.get(n, [])):
                 # every request that reached a handler (or the expect handler) on this connection was answered once,
                 # and the server wrote more final responses than that
                 fc_ = [r for r in finals if r["complete"]]
@@ -2467,7 +2541,9 @@ def run(scn, ch, log=False):
                     poisoned(i)
                     violate("exchange_completes", "request_writer_cancelled_by_stale_drain_waiter", stale_drain_msg(i, res))
                     continue
-                violate("exchange_completes", f"client_error:{res['error']}<-{res.get('error_cause')}",
+                violate("exchange_completes", f"client_error:{res['error']}<-{res.get('error_cause')}"
+                        + (f":te_spelled_by_caller:{'sized_body' if rq['body']['kind'] in ('bytes', 'bytearray', 'str', 'bio') else rq['body']['kind']}"
+                           if caller_te(rq) else ""),
                         f"exchange {i} ({rq['method']} body={rq['body']['kind']} chunked={rq['chunked']!r} compress={rq['compress']!r} "
                         f"expect100={rq['expect100']} v{scn['version']} -> {rs['status']} {rs['body']['kind']}) failed without any fault: "
                         f"{res.get('error_msg')} root cause {res.get('error_cause')}")
@@ -2666,6 +2742,10 @@ def run(scn, ch, log=False):
             probes["early_answer_rest_in_2+_reads"] = multi
             probes["early_answer_then_next_on_same_conn"] = sum(
                 1 for r in early_recs if any(q["conn"] == r["conn"] and q["step"] > r["step"] for q in seen))
+        n_cte = sum(1 for sg in all_segs if caller_te(exchanges[sg["ex"]]["req"]))
+        if n_cte:
+            probes["caller_te_written"] = n_cte
+            probes["caller_te_reached_handler"] = sum(1 for r in seen if r["ex"] is not None and caller_te(exchanges[r["ex"]]["req"]))
         n_over = sum(1 for r in seen if r.get("overrun"))
         if n_over:
             probes["overrun_handled"] = n_over
@@ -2708,7 +2788,8 @@ def run(scn, ch, log=False):
                      + ("+rawio" if any(ex[sd_]["body"]["kind"] == "rawio" for ex in exchanges for sd_ in ("req", "resp")) else "")
                      + ("+range" if any(file_range_expect(ex["req"], ex["resp"]) is not None for ex in exchanges) else "")
                      + ("+early" if any(early_mode(ex["req"]) is not None for ex in exchanges) else "")
-                     + ("+overrun" if any(ex["resp"]["body"].get("surplus") for ex in exchanges) else ""),
+                     + ("+overrun" if any(ex["resp"]["body"].get("surplus") for ex in exchanges) else "")
+                     + ("+callerte" if any(caller_te(ex["req"]) for ex in exchanges) else ""),
         }
         if log:
             res["event_log"] = loop.event_log
